@@ -11,6 +11,7 @@ type segScenario struct {
 	radius     float64
 	radiusKind string // "zero" | "threshold" | "free"
 	f          float64
+	aligned    bool // midpoint on a tile boundary in longitude and altitude
 }
 
 func clamp(x, lo, hi float64) float64 { return math.Max(lo, math.Min(hi, x)) }
@@ -59,6 +60,31 @@ func genSegment(g *Gen, maxVox int64, sameZoom ...bool) segScenario {
 		nx, ny = span()/2, span()/2
 	}
 	vh := float64(pow2(25)) / float64(pow2(sc.vz)) // metres per vertical voxel
+	if sc.hz >= 4 && g.R.Chance(1, 8) {
+		// boundary-aligned segment: its midpoint sits on a tile boundary in longitude and in
+		// altitude (and, half of the time, on the equator), so the midpoint recursion of the line
+		// query rounds differently depending on direction and on the last bit of the end points
+		m := g.R.Range(3, min64(sc.hz, 9))
+		lonC := -180 + 360*float64(g.R.Range(1, pow2(m)-1))/float64(pow2(m))
+		altC := float64(g.R.Range(-3, 6)) * vh
+		latC := lat
+		dLon := w * (0.2 + 2.5*g.R.Float64())
+		dLat := latStep * 2.5 * g.R.Float64()
+		dAlt := vh * 2.5 * g.R.Float64()
+		if g.R.Chance(1, 2) {
+			latC = 0
+		}
+		if g.R.Chance(1, 2) { // "decimal" offsets, as a user would type them
+			dLon = math.Round(dLon*1e7) / 1e7
+			dLat = math.Round(dLat*1e7) / 1e7
+			dAlt = math.Round(dAlt*10) / 10
+		}
+		sg := float64(1 - 2*g.R.Intn(2))
+		sc.start = [3]float64{clamp(lonC+sg*dLon, -179.99, 179.99), clamp(latC-dLat, -84, 84), altC + dAlt}
+		sc.end = [3]float64{clamp(lonC-sg*dLon, -179.99, 179.99), clamp(latC+dLat, -84, 84), altC - dAlt}
+		sc.aligned = true
+		return sc
+	}
 	alt := (float64(g.R.Range(-3, 5)) + g.R.Float64()) * vh
 	dv := float64(g.R.Range(-3, 3))
 	if g.R.Chance(1, 2) {
@@ -85,7 +111,11 @@ func genCorridor(g *Gen, maxVox int64, maxF float64) segScenario {
 		maxF = math.Min(maxF, 0.5)
 	}
 	la, lb := sc.start[1], sc.end[1]
-	switch x := g.R.Intn(10); {
+	x := g.R.Intn(10)
+	if sc.aligned && g.R.Chance(1, 2) {
+		x = 0 // the radius-0 identity is where a one-voxel difference of the line shows
+	}
+	switch {
 	case x < 2:
 		sc.radius, sc.radiusKind = 0, "zero"
 	case x < 6 && maxF >= 1:
